@@ -88,7 +88,8 @@ def gen_ds(rng):
     c.update(lobpcg_topk_precondition=1, block_size=16, compression_rank=0, frequent_directions=False, average_grad=False,
              reset_preconditioner=False, best_effort_shape_interpretation=False, skip_preconditioning_dim_size_gt=4096)
     tree = {"p0": [8, 8], "p1": [9, 2]}
-  return {"kind": "ds", "cfg": c, "tree": tree, "mode": mode, "hseed": int(rng.integers(0, 2 ** 31))}
+  # pmap over one or two devices (with two, the statistics are padded to a multiple of the device count)
+  return {"kind": "ds", "cfg": c, "tree": tree, "mode": mode, "hseed": int(rng.integers(0, 2 ** 31)), "pdev": int(rng.integers(1, 3))}
 
 
 def sig(t):
@@ -123,17 +124,25 @@ def check_ds(c, rec):
   wit = dict(c)
   rec.count("configs")
   rec.count("configs_" + mode)
+  if mode == "pmap" and c.get("pdev", 1) == 2:
+    rec.count("configs_pmap_two_devices")
   rng = np.random.default_rng(c["hseed"])
   params = {k: rng.standard_normal(tuple(s)).astype(np.float32) for k, s in tree.items()}
   key = util.key_hash({k: c[k] for k in ("cfg", "tree", "mode")})
   try:
-    opt = H.make_opt(cfg, mode, 2 if mode == "sharded" else 1)
+    opt = H.make_opt(cfg, mode, 2 if mode == "sharded" else (c.get("pdev", 1) if mode == "pmap" else 1))
   except Exception as e:  # pylint: disable=broad-except
     rec.case(key, False)
     handle_exc(e, rec, wit, "constructor")
     return
   try:
-    run = H.Runner(cfg, params, mode, 2 if mode == "sharded" else 1, opt=opt)
+    run = H.Runner(cfg, params, mode, 2 if mode == "sharded" else (c.get("pdev", 1) if mode == "pmap" else 1), opt=opt)
+    if mode == "pmap" and c.get("pdev", 1) == 2 and any(np.size(x) == 0 for x in jax.tree.leaves(run.state)):
+      # this jaxlib's CPU compiler segfaults on ANY pmap over >= 2 host devices that has a zero-size operand
+      # (jax.pmap(lambda x, e: (x * 2, e))(ones((2,)), zeros((2, 0))) dies in backend_compile): an environment defect, not the
+      # repository's.  States with empty leaves (metrics of parameters without statistics) run on one device instead.
+      rec.count("pmap_two_devices_avoided_zero_size_leaf")
+      run = H.Runner(cfg, params, mode, 1, opt=H.make_opt(cfg, mode, 1))
     s0 = sig(run.state)
   except Exception as e:  # pylint: disable=broad-except
     rec.case(key, False)
